@@ -140,7 +140,12 @@ DECOY_NAMES = [
 ]
 
 
-def add_decoys(rng: random.Random, spec: dict, p: float = 0.5) -> None:
+def add_decoys(rng: random.Random, spec: dict, p: float = 0.5, stems: list[str] | None = None) -> None:
+    # earlier outputs a user keeps next to the input (plan report p0.tjp > p0.json) - named after the input
+    for st in stems or []:
+        if rng.random() < 0.3:
+            for name in (f"cwd/{st}.json", f"cwd/{st}.csv", f"cwd/old_{st}_2023.json", f"tmp/{st}.json")[: rng.randrange(1, 5)]:
+                spec["decoys"][name] = '{"kept": "%s"}\n' % name
     if rng.random() >= p:
         return
     for _ in range(rng.randrange(1, 6)):
